@@ -131,6 +131,7 @@ pub fn hmode_strategy() -> impl Strategy<Value = HMode> {
         2 => Just(HMode::Mix),
         2 => Just(HMode::PairBin),
         1 => Just(HMode::FewHigh),
+        1 => Just(HMode::Shift4),
     ]
 }
 
